@@ -12,6 +12,13 @@ NOTE = ('Trusted: CrossHair\'s symbolic models of Python builtins, z3, the harne
         'INCOMPLETE and are not counted as discharged.')
 
 CLAIMED = {
+    'C16': ('symbolic thread schedules (preemption-bounded, statement granularity) over coroutine copies of the real '
+            'backend/generator functions regenerated from /repo by an AST transform; violating schedules replayed on real '
+            'threads over the untransformed code (CrossHair/z3 + engine B)', '§2.5, §3 C16',
+            'The run lengths of the preempted segments, the first thread, per-trial actions, rewards and group assignment are '
+            'solver variables; the quiescence invariant (ids 1..N once, one group per trial, one feedback per completed trial, '
+            'consistent counters, maximal feasible best trial, shared study, same-group workers share the pending trial, no '
+            'deadlock) is asserted; 2 threads with 1-2 preemptions in quick, more in thorough.'),
     'C12': ('symbolic selection of valid DNAs, view parameters, producing operations and all RNG outcomes; alignment with a '
             'DNA rebuilt from raw numbers (CrossHair/z3; operators run natively, every random draw is a solver decision)', '§3 C12',
             'Every view (dict under all key/value/multi-choice styles, flat and nested numbers, compact and verbose JSON) '
@@ -117,7 +124,7 @@ def main():
           thorough_cmd=f'./check {pid} --tier thorough',
           evidence_file=f'evidence/{pid}.json',
           replay_cmd_template=f'./check {pid} --replay {{path}}',
-          engine='chx' if pid != 'C19' else 'chx+z3q',
+          engine={'C19': 'chx+z3q', 'C16': 'chx+engineB'}.get(pid, 'chx'),
           level_claimed=dict(category='model_checking', text=text + ' Bounded: nothing is claimed outside the bounds.',
                              design_ref=ref),
           level_note=NOTE,
@@ -132,8 +139,12 @@ def main():
                  baseline_off_cmd='cd /repo && /venv/bin/python -m pytest -ra -q -p no:cacheprovider --timeout=900 '
                                   '--continue-on-collection-errors',
                  source_commits=[], add_only=True),
-      engines=[dict(name='chx', path='engine/chx.py', serves_properties=sorted(CLAIMED),
-                    kind_free_text=A)],
+      engines=[dict(name='chx', path='engine/chx.py', serves_properties=sorted(CLAIMED), kind_free_text=A),
+               dict(name='engineB', path='engine/yieldify.py', serves_properties=['C16'],
+                    kind_free_text='AST transform of the real functions into statement-granular coroutines + preemption-bounded '
+                                   'scheduler with solver-chosen run lengths (engine/sched.py) + real-thread replay (engine/trace_replay.py)'),
+               dict(name='z3q', path='harness/c19_coding.py', serves_properties=['C19'],
+                    kind_free_text='direct z3 query generated from the AST of _CodeValidator.generic_visit')],
       checks=checks,
       notes='Known findings and repaired defects are listed in known_findings.txt; see DESIGN.md.',
       not_applicable=na)
